@@ -851,6 +851,7 @@ func (r *runner) toComposableRunnable() *composableRunnable {
 		outputType:    r.outputType,
 		genericHelper: r.genericHelper,
 		optionType:    nil, // if option type is nil, graph will transmit all options.
+		subNodes:      r.chanSubscribeTo,
 	}
 
 	return cr
